@@ -793,7 +793,29 @@ class CSemantics:
             if op[0] in ["+", "-"] and lhs.typ.is_pointer:
                 self.ensure_integer(rhs)
                 lhs = self.ensure_no_void_ptr(lhs)
-            rhs = self.coerce(rhs, result_typ)
+
+            if (
+                op != "="
+                and isinstance(lhs.typ, types.BasicType)
+                and isinstance(rhs.typ, types.BasicType)
+                and lhs.typ.is_scalar
+                and rhs.typ.is_scalar
+            ):
+                # 'E1 op= E2' is 'E1 = E1 op (E2)': the operation is done
+                # in the type that 'E1 op E2' has, and its result is
+                # converted to the type of E1 afterwards. The right hand
+                # side is brought to the type of the operation, the code
+                # generator converts the left operand to and from it.
+                if lhs.typ.is_promotable:
+                    op_typ = self.int_type
+                else:
+                    op_typ = lhs.typ
+                rhs = self.promote(rhs)
+                if op not in ["<<=", ">>="]:
+                    op_typ = self.get_common_type(op_typ, rhs.typ, location)
+                rhs = self.coerce(rhs, op_typ)
+            else:
+                rhs = self.coerce(rhs, result_typ)
         elif op == ",":
             result_typ = rhs.typ
         elif op == "+":
